@@ -98,6 +98,9 @@ impl Once {
 
     /// Returns `true` if some [`Once::call_once()`] call has completed successfully.
     pub fn is_completed(&self) -> bool {
+        // Observing the cell's state is a visible operation, so it needs a scheduling point
+        shuttle_engine::runtime::thread::switch();
+
         ExecutionState::with(|state| {
             let init = match self.get_state(state) {
                 Some(init) => init,
